@@ -97,6 +97,9 @@ def classify(item: Dict[str, Any], key: str, what: str, twin: exprs.Twin, detail
             # the `or` is part of the misreported text and CPython's value of it is not the object True
             if seg and seg in key and key != seg and any(v is not True for v in vals):
                 return "C06/or-recomputed-as-true"
+    if what == "wrong-value" and detail_text.startswith("<Placeholder>"):
+        # mechanism: the internal marker for comprehension variables recorded as the value of a like-named argument
+        return "C06/placeholder-shown-for-argument-hidden-by-comprehension-variable"
     if "all(" in key and what == "wrong-value" and "FirstExceptionInAll" in detail_text:
         return "C06/first-exception-object-leaks-into-enclosing-expression"
     if item.get("lam_defaults") and any(x in key for x in item["lam_defaults"]):
